@@ -1,7 +1,7 @@
 """Property -> obligations registry.  Section numbers refer to /verif/DESIGN.md."""
 import functools
 
-from .rules import tables, truth, da, order, bond, sampler, own, exc, keys, sib, prov, tok, emit
+from .rules import tables, truth, da, order, bond, sampler, own, exc, keys, sib, prov, tok, emit, extra
 
 COMMON_ASSUMPTIONS = [
     "pysmiles, networkx, numpy and RDKit behave as documented (their code is not analysed)",
@@ -102,6 +102,10 @@ R = {
     "tok_rules": tiered(tok.tok_rules),
     "emit_format_bonding": tiered(emit.emit_format_bonding),
     "emit_write_graph": tiered(emit.emit_write_graph),
+    "prov_atom_names": tiered(extra.prov_atom_names),
+    "prov_open_bonds": tiered(extra.prov_open_bonds),
+    "prov_rdkit_attrs": tiered(extra.prov_rdkit_attrs),
+    "prov_ring_edges": tiered(extra.prov_ring_edges),
 }
 
 PROPERTIES = {}
@@ -137,12 +141,13 @@ prop("C03", ["tt_compatible", "prov_matcher_shape", "who_may_bond", "prov_matche
      "'exactly that many' bonds depends on first-match search order over runtime lists",
      floors={"TT.compatible": 1, "PROV.matcher-shape": 4, "OWN.sole-bond-site": 1, "PROV.matcher-args": 1,
              "PROV.legacy-forwarded": 2, "TRIP.bond-loop": 3, "PAIR.resolver-consume": 3, "PROV.bond-edge": 2, "PROV.bond-order": 1})
-prop("C04", ["tab_reader_symbols", "da_reader", "da_globals_reader", "sib_ring_handlers", "prov_node_attributes"],
+prop("C04", ["tab_reader_symbols", "da_reader", "da_globals_reader", "sib_ring_handlers", "prov_ring_edges", "prov_node_attributes"],
      "a sliver: the reader's symbol table equals the documented one and its guard admits every symbol; no possibly-unbound local on a feasible path of the "
-     "reader functions; the %nn and digit ring handlers perform the same open/close protocol; node attributes come from the node's own text",
+     "reader functions; the %nn and digit ring handlers perform the same open/close protocol; a ring bond joins opening and closing node with the order "
+     "written at the opening marker and the pending ring order is reset after every marker; node attributes come from the node's own text",
      "whether nodes, edges and orders are the ones the grammar denotes: index arithmetic over the pattern string (simultaneous branch closings, "
      "unbounded %nn digits) has no structural witness in reach",
-     floors={"TAB.reader-symbols": 2, "DA.reader": 5, "SIB.S2-ring-handlers": 3, "PROV.node-attributes": 4})
+     floors={"TAB.reader-symbols": 2, "DA.reader": 5, "SIB.S2-ring-handlers": 3, "PROV.ring-edges": 6, "PROV.node-attributes": 4})
 prop("C05", ["da_reader", "trip_multiplier", "sib_multiplier_scans"],
      "definite assignment in the branch expansion block (base_anchor); trip counts of node loop, recipe entries, _expand_branch and the branch loop "
      "(multiplier - 1); both multiplier number scans stop at the same token set including the order symbols",
@@ -180,13 +185,13 @@ prop("C11", ["trip_bond_loop", "exc_missing_fragment", "key_fragid"],
      "creates no fine nodes; skipping a node does not shift the membership of the others",
      "that the fine molecule is unchanged follows from these plus C03 only for the clauses decided there",
      floors={"TRIP.bond-loop": 3, "EXC.X3-missing-fragment": 3, "KEY.K1-fragid": 1})
-prop("C12", ["own_templates_resolver", "own_mutable_defaults", "det_resolver", "sib_constructors", "prov_sort_key", "prov_fragdict_by_key"],
+prop("C12", ["own_templates_resolver", "own_mutable_defaults", "det_resolver", "sib_constructors", "prov_sort_key", "prov_fragdict_by_key", "prov_atom_names"],
      "no function reachable from the resolver mutates a fragment template or library (effect summaries at structure / attribute / value depth; shared "
      "value flows judged against reachable in-place mutation sites); 11 mutable defaults are read-only; no nondeterminism source or order-sensitive set "
      "iteration on resolver paths; constructors forward options and split levels identically; new keys are positions in (membership, old key) order; "
-     "fragment dictionaries are only accessed by key",
-     "contiguity of blocks and uniqueness of atom names; determinism of pysmiles itself is assumed",
-     floors={"OWN.templates-resolver": 10, "OWN.mutable-defaults": 8, "DET.resolver": 15, "SIB.S1-constructors": 9, "PROV.sort-key": 4, "PROV.fragdict-by-key": 2})
+     "fragment dictionaries are only accessed by key; atom names are element + position within the coarse node's atom list",
+     "contiguity of blocks; determinism of pysmiles itself is assumed; shared atoms are named once per coarse node they belong to",
+     floors={"OWN.templates-resolver": 10, "OWN.mutable-defaults": 8, "DET.resolver": 15, "SIB.S1-constructors": 9, "PROV.sort-key": 4, "PROV.fragdict-by-key": 2, "PROV.atom-names": 2})
 prop("C13", ["tok_rules"],
      "dispatch map and per-branch effects of the tokenizer: T0 text conservation, T1 symbols set the pending order, T2 ring digits go to the previous atom "
      "and clear the pending order, T3 atoms advance (previous := counter; counter += 1) and clear it, annotations under the pre-increment index, T4 "
@@ -204,23 +209,24 @@ prop("C15", ["ord_resolve_stereo", "prov_relative_attr", "tok_rules", "prov_copy
      "remapped through the relabelling map and shifted on merge; slash marks are recorded for the atoms around them; chirality annotations are copied",
      "the cis/trans relation itself (pysmiles' _annotate_ez_isomers)",
      floors={"ORD.resolve-stereo": 3, "PROV.relative-attr": 3, "TOK.T6-slash": 1})
-prop("C16", ["tt_complement", "prov_growth_edge", "own_templates_sampler", "ord_sample_finalise", "prov_sort_key"],
+prop("C16", ["tt_complement", "prov_growth_edge", "prov_open_bonds", "own_templates_sampler", "ord_sample_finalise", "prov_sort_key"],
      "complementarity relation over 160 abstract states; growth step: one merge and one bond on every path, bond between chosen site atom and the copy of "
      "the partner's atom, order and recorded pair from the chosen descriptors, both descriptors consumed on their own atoms; templates are never mutated "
-     "and their attribute values never shared into the molecule; finalisation order",
+     "and their attribute values never shared into the molecule; the open-descriptor index is rebuilt from the molecule before every step and files each "
+     "atom under its own descriptors, the fragment index maps a descriptor to (fragment, atom) carrying it; finalisation order",
      "connectedness / tree shape follow by induction that is not mechanised; valence completeness as C09",
-     floors={"TT.complement": 1, "PROV.growth-edge": 6, "PAIR.sampler-consume": 2, "OWN.templates-sampler": 5, "ORD.sample-finalise": 5})
+     floors={"TT.complement": 1, "PROV.growth-edge": 6, "PAIR.sampler-consume": 2, "PROV.open-bonds": 6, "OWN.templates-sampler": 5, "ORD.sample-finalise": 5})
 prop("C17", ["prov_stop_rule", "prov_weights", "tt_terminal_filter", "det_sampler", "ord_compute_mass"],
      "stop rule `sum < target` strict, sum starts at 0 and grows by the added fragment's mass on every iteration; weights are probabilities.get(b, 0) over the "
      "same sequence, unweighted draw only without table; terminal filter truth table; every draw is random.* on ordered populations, seeded on every path "
      "from the seed parameter before any draw; mass = sum over the hydrogen-completed copy",
      "statistical properties; floating point normalisation",
      floors={"PROV.stop-rule": 4, "PROV.weights": 3, "TT.terminal-filter": 2, "DET.sampler": 6, "ORD.compute-mass": 3})
-prop("C18", ["da_globals_rdkit", "key_rdkit", "norm_bead", "tab_bond_types"],
+prop("C18", ["da_globals_rdkit", "key_rdkit", "norm_bead", "tab_bond_types", "prov_rdkit_attrs"],
      "no unresolved global name in rdkit.py / coordinates.py; node keys, RDKit atom indices and counters are never mixed without a map; bead position = "
-     "weighted sum over the bead's own atoms / sum of those weights; bond type table",
+     "weighted sum over the bead's own atoms / sum of those weights; bond type table; element, charge, hydrogen count and bond order are carried by both conversions",
      "everything RDKit computes (sanitisation, embedding, distances)",
-     floors={"DA.globals": 2, "KEY.K2-rdkit": 5, "NORM.bead": 3, "TAB.bond-types": 1})
+     floors={"DA.globals": 2, "KEY.K2-rdkit": 5, "NORM.bead": 3, "TAB.bond-types": 1, "PROV.rdkit-attrs": 8})
 prop("C19", ["norm_scale"],
      "mean bond length = sum of end-point distances over all edges / number of edges; every position multiplied by default_bond / mean; only isometries "
      "may write positions afterwards; the rescaled dict is returned",
